@@ -25,6 +25,7 @@ PRELUDE_ORDER = [
     "31_abstract_spec.rs",
     "40_abstract_impl.rs",
     "50_bytes.rs",
+    "60_ctoption_repr.rs",
     "60_shares.rs",
     "70_misc.rs",
     "80_time.rs",
@@ -169,6 +170,8 @@ def assemble(unit_name, specs, tags, view, props_files, workdir, prelude_files=N
 ERR_KINDS_SEMANTIC = [
     "postcondition not satisfied",
     "precondition not satisfied",
+    "precondition not met",
+    "index in bounds",
     "assertion failed",
     "invariant not satisfied",
     "possible arithmetic underflow/overflow",
